@@ -195,8 +195,7 @@ def run(tier, seed):
     chains = ["".join(c) for n in range(2, 6) for c in itertools.product("KCF", repeat=n)]
     reps, ncomp = (6, 18000) if tier == "quick" else (60, 300000)
     payloads = [{"seed": seed, "shard": i, "chains": chains[i::NCPU], "reps": reps, "n_compound": ncomp // NCPU, "bin": bins["dbg"], "kind": "dbg"} for i in range(NCPU)]
-    if tier == "thorough":
-        payloads += [{"seed": seed, "shard": 100 + i, "chains": chains[i::NCPU], "reps": 10, "n_compound": ncomp // NCPU // 5, "bin": bins["rel"], "kind": "rel"} for i in range(NCPU)]
+    payloads += [{"seed": seed, "shard": 100 + i, "chains": chains[i::NCPU], "reps": 10 if tier == "thorough" else 1, "n_compound": ncomp // NCPU // 5, "bin": bins["rel"], "kind": "rel"} for i in range(NCPU)]
     acc = run_shards(shard, payloads)
     return finish(PID, tier, seed, "exploration", acc, RULE, t0,
                   assumptions=["K = C + 273.15 and C = (F - 32) * 5/9 are the defining formulas", "a refused compound conversion is allowed by the property"],
